@@ -14,6 +14,8 @@ pub fn instances(tier: &str) -> Vec<String> {
     for n in 1..=(if tier == "thorough" { 4 } else { 3 }) { v.push(format!("norminf:n={}", n)); v.push(format!("norminf_laws:n={}", n)); }
     for n in 0..=(if tier == "thorough" { 3 } else { 2 }) { v.push(format!("triangle2:n={}", n)); }
     for n in 2..=(if tier == "thorough" { 9 } else { 5 }) { v.push(format!("space:n={}", n)); }
+    // element-wise arithmetic is ONE IEEE operation per entry (props/fparith.rs)
+    v.push("fp_arith:of=vector,n=2".into());
     v
 }
 
